@@ -546,6 +546,40 @@ def check(idx: Index, rep: Report, tier: str) -> str:
     else:
         r5.ok(sf.fq, f"{sf.loc} returns on IsTerminator before any _known_ops access")
 
+    # ---- R6: clients that decide "nothing changed" compare the whole roots
+    r6 = rep.rule("C03.R6", "ModulePass.schedule_space decides 'the pass changed nothing' by comparing the module it was given with the whole clone returned by apply_to_clone (root attributes and properties included), not a part of each", floor=1)
+    sp = idx.func("xdsl.passes", "ModulePass.schedule_space")
+    scfg = CFG(sp.node)
+    ecalls = [c for c in calls_in(sp.node) if call_attr(c) == "is_structurally_equivalent" and isinstance(c.func, ast.Attribute) and c.args]
+    if not ecalls:
+        raise AnalysisError(f"{sp.fq}: no is_structurally_equivalent call")
+    params = [a.arg for a in sp.node.args.args]
+    mod_param = params[2] if len(params) > 2 else None
+    clone_names = set()
+    for n in walk_local(sp.node):
+        if isinstance(n, ast.Assign) and isinstance(n.value, ast.Call) and call_attr(n.value) == "apply_to_clone" and len(n.targets) == 1:
+            t = n.targets[0]
+            if isinstance(t, ast.Tuple) and len(t.elts) == 2 and isinstance(t.elts[1], ast.Name):
+                clone_names.add(t.elts[1].id)
+    if mod_param is None or not clone_names:
+        raise AnalysisError(f"{sp.fq}: module parameter / `_, clone = apply_to_clone(...)` not found")
+    for c in ecalls:
+        at = scfg.node_of(c)
+        sides = [resolved_text(scfg, c.func.value, at), resolved_text(scfg, c.args[0], at)]
+        want = [{mod_param}, set(clone_names)]
+        for i_, s_ in enumerate(sides):
+            m_ = re.match(r"^(.+\.apply_to_clone\(.*\)\[1\])(.*)$", s_)
+            if m_:
+                want[1].add(m_.group(1))
+        if (sides[0] in want[0] and sides[1] in want[1]) or (sides[0] in want[1] and sides[1] in want[0]):
+            r6.ok(sp.fq, f"{sp.loc} `{unparse(c)}` compares the given module with the whole clone")
+            continue
+        part = [s_ for s_ in sides if any(s_.startswith(w + ".") or s_.startswith(w + "[") for w in want[0] | want[1])]
+        if part:
+            r6.fail(sp.fq, Finding("C03.R6", sp.fq, "partial-comparison", f"`{unparse(c)}` compares only {part} of the two modules: a pass that changes what is left out (attributes / properties of the root operation) is classified as changing nothing and dropped from the schedule, although the modules are not structurally equivalent", sp.loc))
+        else:
+            raise AnalysisError(f"{sp.fq}: operands of `{unparse(c)}` not understood ({sides})")
+
     return (
         "AST/CFG rules over the three is_structurally_equivalent methods of xdsl/ir/core.py and CSE's OperationInfo: "
         "field coverage with discriminating, rejecting comparisons on every accepting path (must-pass-through), typed "
